@@ -625,6 +625,13 @@ func (w *c04World) checkMapState() error {
 	return nil
 }
 
+// c04TimeoutErr is a timeout-class network error (what a stalled Redis write returns).
+type c04TimeoutErr struct{}
+
+func (c04TimeoutErr) Error() string   { return "write tcp 10.0.0.5:6379: i/o timeout" }
+func (c04TimeoutErr) Timeout() bool   { return true }
+func (c04TimeoutErr) Temporary() bool { return true }
+
 // c04MappingKey is the primary storage key of a mapping record.
 func c04MappingKey(id string) string { return constants.KeyPrefixPortMapping + ":" + id }
 
@@ -1904,19 +1911,71 @@ func (m c04HistModel) mapState() string {
 }
 
 // c04RunHistory applies ops and performs the final opens. Returns false on set-up trouble.
-func c04RunHistory(t *testing.T, run *vk.Run, kind string, ops []string, idx int) bool {
+func c04RunHistory(t *testing.T, run *vk.Run, kind string, ops []string, idx int, cluster bool) bool {
 	cell := c04Cell{Kind: kind, Tunnel: "none", MapState: "active", Identity: "listen", Cred: "id"}
-	w, err := c04NewWorld(t, run, cell, idx)
+	var w *c04World
+	var err error
+	adm := (*miniNode)(nil) // the node through which "another party" changes the mapping
+	var shared *vk.Gated
+	if cluster {
+		// cluster storage layout of the server (createStorage): per node a local cache, one
+		// shared cache (Redis) and one persistent tier (database) behind HybridStorage
+		w = &c04World{t: t, run: run, cell: cell}
+		bg, cancel := context.WithCancel(context.Background())
+		w.cleanup = append(w.cleanup, cancel)
+		shared = vk.NewGated("shared-cache", memory.New(bg))
+		shared.SetHook(nil)
+		db := vk.NewMapPersistent("db")
+		db.SetHook(nil)
+		mk := func(id string) *miniNode {
+			cfg := storage.DefaultHybridConfig()
+			cfg.EnablePersistent = true
+			return newMiniNode(t, miniOpts{NodeID: id, NoCommands: true,
+				Store: storage.NewHybridStorageWithSharedCache(bg, memory.New(bg), shared, db, cfg)})
+		}
+		w.n = mk("node-a")
+		w.nb = w.n
+		adm = mk("node-b")
+		defer adm.Close()
+		err = w.populate(idx)
+	} else {
+		w, err = c04NewWorld(t, run, cell, idx)
+		adm = w.n
+	}
 	defer w.close()
 	if err != nil {
 		run.Count("cells_setup_failed", 1)
+		run.Observe(fmt.Sprintf("setup_failed|history-%d", idx), err.Error())
 		return false
 	}
-	pmRepo := repos.NewPortMappingRepo(w.n.Repo)
+	// oneSharedCacheTimeout makes exactly the next shared-cache write of the mapping record
+	// fail with a timeout-class error (a short Redis stall); the persistent write is untouched
+	oneSharedCacheTimeout := func() func() bool {
+		if shared == nil {
+			return func() bool { return false }
+		}
+		var armed, fired atomic.Bool
+		armed.Store(true)
+		key := c04MappingKey(w.mapID)
+		shared.SetHook(func(tier, op, k string) error {
+			if op == "Set" && k == key && armed.CompareAndSwap(true, false) {
+				fired.Store(true)
+				return c04TimeoutErr{}
+			}
+			return nil
+		})
+		return func() bool { shared.SetHook(nil); return fired.Load() }
+	}
+	pmRepo := repos.NewPortMappingRepo(adm.Repo)
 	model := c04HistModel{active: true}
 	uses := 0
 	for _, op := range ops {
 		var opErr error
+		var timeoutFired func() bool
+		if strings.HasSuffix(op, "!cache-timeout") {
+			op = strings.TrimSuffix(op, "!cache-timeout")
+			timeoutFired = oneSharedCacheTimeout()
+		}
 		switch op {
 		case "use":
 			// a complete legitimate mapping-id tunnel: source opens, target joins, both leave
@@ -1955,31 +2014,41 @@ func c04RunHistory(t *testing.T, run *vk.Run, kind string, ops []string, idx int
 			m.LastActive, m.UpdatedAt = &ahead, ahead
 			opErr = pmRepo.UpdatePortMapping(m)
 		case "revoke":
-			if opErr = w.n.CCS.RevokeMapping(w.mapID, w.T.ClientID, "verif"); opErr == nil {
+			if opErr = adm.CCS.RevokeMapping(w.mapID, w.T.ClientID, "verif"); opErr == nil {
 				model.revoked, model.active = true, false
 			}
 		case "inactive":
-			if opErr = w.n.CC.UpdatePortMappingStatus(w.mapID, models.MappingStatusInactive); opErr == nil {
+			if opErr = adm.CC.UpdatePortMappingStatus(w.mapID, models.MappingStatusInactive); opErr == nil {
 				model.active = false
 			}
 		case "activate":
-			if opErr = w.n.CC.UpdatePortMappingStatus(w.mapID, models.MappingStatusActive); opErr == nil {
+			if opErr = adm.CC.UpdatePortMappingStatus(w.mapID, models.MappingStatusActive); opErr == nil {
 				model.active = true
 			}
 		case "expire":
-			m, err := w.n.CC.GetPortMapping(w.mapID)
+			m, err := adm.CC.GetPortMapping(w.mapID)
 			if err != nil {
 				opErr = err
 				break
 			}
 			past := time.Now().Add(-time.Minute)
 			m.ExpiresAt = &past
-			if opErr = w.n.CC.UpdatePortMapping(m); opErr == nil {
+			if opErr = adm.CC.UpdatePortMapping(m); opErr == nil {
 				model.expired = true
 			}
 		case "delete":
-			if opErr = w.n.CC.DeletePortMapping(w.mapID); opErr == nil {
+			if opErr = adm.CC.DeletePortMapping(w.mapID); opErr == nil {
 				model.deleted = true
+			}
+		}
+		if timeoutFired != nil {
+			if timeoutFired() {
+				run.Count("shared_cache_write_timed_out_during_op", 1)
+				if opErr == nil {
+					run.Count("op_acknowledged_despite_cache_timeout", 1)
+				}
+			} else {
+				run.Count("injected_timeout_not_reached", 1)
 			}
 		}
 		w.logf("op %s: err=%v -> acknowledged state %s", op, opErr, model.mapState())
@@ -1995,12 +2064,17 @@ func c04RunHistory(t *testing.T, run *vk.Run, kind string, ops []string, idx int
 	if kind == "keyed" {
 		fins = append(fins, fin{"listen", "id+secret"}, fin{"target", "id+secret"})
 	}
-	for i, f := range fins {
+	nodes := []*miniNode{w.n}
+	if cluster {
+		nodes = append(nodes, adm)
+	}
+	for i := 0; i < len(fins)*len(nodes); i++ {
+		f, node := fins[i%len(fins)], nodes[i/len(fins)]
 		c := w.L
 		if f.identity == "target" {
 			c = w.T
 		}
-		e, err := w.newEnd(w.n, "final-"+f.identity, c.ClientID, c.Secret)
+		e, err := w.newEnd(node, "final-"+f.identity+"@"+node.NodeID, c.ClientID, c.Secret)
 		if err != nil {
 			run.Count("cells_setup_failed", 1)
 			return false
@@ -2010,13 +2084,16 @@ func c04RunHistory(t *testing.T, run *vk.Run, kind string, ops []string, idx int
 			req.SecretKey = w.secret
 		}
 		w.open(e, req)
-		w.logf("final open by %s with %s: ack=%s err=%q", f.identity, f.cred, c04AckStr(e.ack), e.err)
+		w.logf("final open by %s with %s on %s: ack=%s err=%q", f.identity, f.cred, node.NodeID, c04AckStr(e.ack), e.err)
 		obs := c04Obs{Ack: c04AckStr(e.ack), SendErr: e.err}
-		if b := c04BridgeOf(w.n, e); b != nil {
+		if b := c04BridgeOf(node, e); b != nil {
 			obs.Attached = c04Side(b, e) + "@" + b.GetTunnelID()
 		}
 		obs.Trace = append([]string{"history: " + strings.Join(ops, " > ")}, w.trace...)
 		jc := c04Cell{Kind: kind, Tunnel: "after-history", MapState: state, Identity: f.identity, Cred: f.cred}
+		if cluster {
+			jc.Tunnel = "after-history-cluster"
+		}
 		run.Eval(1)
 		c04Judge(run, jc, obs)
 	}
@@ -2038,12 +2115,31 @@ func TestVerifC04History(t *testing.T) {
 	for _, kind := range []string{"keyed", "conncode"} {
 		for _, h := range directed {
 			run.Case(kind+"|"+strings.Join(h, ">"), nil)
-			if c04RunHistory(t, run, kind, h, 600000+n) {
+			if c04RunHistory(t, run, kind, h, 600000+n, false) {
 				run.Distinct(kind + "|" + strings.Join(h, ">"))
 			}
 			n++
 		}
 	}
+	// the same on the cluster storage layout, where another party's state change meets one
+	// timed-out shared-cache write
+	clusterHist := [][]string{
+		{"use", "revoke!cache-timeout"}, {"use", "inactive!cache-timeout"}, {"use", "expire!cache-timeout"},
+		{"use", "report", "revoke!cache-timeout"}, {"revoke!cache-timeout"}, {"use", "delete"}, {"use", "revoke"}, {"use"},
+		{"use", "revoke!cache-timeout", "activate"}, {"use", "inactive!cache-timeout", "report"},
+	}
+	nCluster := 0
+	for _, kind := range []string{"keyed", "conncode"} {
+		for _, h := range clusterHist {
+			run.Case("cluster|"+kind+"|"+strings.Join(h, ">"), nil)
+			if c04RunHistory(t, run, kind, h, 600000+n, true) {
+				run.Distinct("cluster|" + kind + "|" + strings.Join(h, ">"))
+				nCluster++
+			}
+			n++
+		}
+	}
+	run.Count("cluster_histories_executed", int64(nCluster))
 	r := run.Rand("histories")
 	opsAll := []string{"use", "report", "skewed-usage-write", "revoke", "inactive", "activate", "expire", "delete", "use", "report"}
 	for i := 0; i < run.Pick(40, 800); i++ {
@@ -2053,8 +2149,16 @@ func TestVerifC04History(t *testing.T) {
 		}
 		kind := c04Kinds[r.Intn(2)]
 		run.Case(kind+"|"+strings.Join(h, ">"), nil)
-		if c04RunHistory(t, run, kind, h, 600000+n) {
-			run.Distinct(kind + "|" + strings.Join(h, ">"))
+		cl := r.Intn(4) == 0
+		if cl {
+			for j := range h {
+				if (h[j] == "revoke" || h[j] == "inactive" || h[j] == "expire") && r.Intn(2) == 0 {
+					h[j] += "!cache-timeout"
+				}
+			}
+		}
+		if c04RunHistory(t, run, kind, h, 600000+n, cl) {
+			run.Distinct(fmt.Sprintf("%v|%s|%s", cl, kind, strings.Join(h, ">")))
 		}
 		n++
 		if run.Violations() > 20 || run.Counter("cells_setup_failed") >= c04MaxSetupFail {
@@ -2063,6 +2167,10 @@ func TestVerifC04History(t *testing.T) {
 	}
 	run.Floor("cells_executed", int64(n-2))
 	run.Floor("history_use_admitted", 20)
+	run.Floor("cluster_histories_executed", 20)
+	run.Floor("shared_cache_write_timed_out_during_op", 12)
+	run.Floor("op_acknowledged_despite_cache_timeout", 12)
+	run.Floor("entitled_admitted|tunnel=after-history-cluster", 2)
 	run.Floor("history_final_state|missing", 8)
 	run.Floor("history_final_state|revoked", 4)
 	run.Floor("history_final_state|active", 4)
